@@ -346,22 +346,24 @@ type WordIterator struct {
 // Next returns true if there is still a word to process,
 // and advances the iterator; or return false.
 func (gr *WordIterator) Next() bool {
-	hasBoundary := gr.next()
-	if !hasBoundary {
-		return false
-	}
+	// loop over the boundaries (not recursion: a long text may have no word)
+	for {
+		hasBoundary := gr.next()
+		if !hasBoundary {
+			return false
+		}
 
-	if gr.inWord { // we are have reached the END of a word
-		gr.inWord = false
-		return true
-	}
+		if gr.inWord { // we are have reached the END of a word
+			gr.inWord = false
+			return true
+		}
 
-	// do we start a word ? if so, mark it
-	if gr.pos < len(gr.src.text) {
-		gr.inWord = unicode.Is(ucd.Word, gr.src.text[gr.pos])
+		// do we start a word ? if so, mark it
+		if gr.pos < len(gr.src.text) {
+			gr.inWord = unicode.Is(ucd.Word, gr.src.text[gr.pos])
+		}
+		// in any case, advance again
 	}
-	// in any case, advance again
-	return gr.Next()
 }
 
 // Word returns the current `Word`
